@@ -898,14 +898,19 @@ func (b *Buffer) mergeOutClusters(start, end int) {
 		cluster = min(cluster, b.outInfo[i].Cluster)
 	}
 
-	/* Extend start */
-	for start != 0 && b.outInfo[start-1].Cluster == b.outInfo[start].Cluster {
-		start--
+	/* Extend start (the cluster of the first glyph has nothing to update
+	 * if its value is already the merged one, see mergeClusters) */
+	if cluster != b.outInfo[start].Cluster {
+		for start != 0 && b.outInfo[start-1].Cluster == b.outInfo[start].Cluster {
+			start--
+		}
 	}
 
 	/* Extend end */
-	for end < len(b.outInfo) && b.outInfo[end-1].Cluster == b.outInfo[end].Cluster {
-		end++
+	if cluster != b.outInfo[end-1].Cluster {
+		for end < len(b.outInfo) && b.outInfo[end-1].Cluster == b.outInfo[end].Cluster {
+			end++
+		}
 	}
 
 	/* If we hit the end of out-buffer, continue in buffer. */
